@@ -32,13 +32,18 @@ LawsHoldOnSpec == SpecHolds(c)
 Reached(W(_)) == \E x \in Cases : W(x)
 Card(q) == Cardinality(SetOf(q))
 WitnessesReached ==
-    /\ Reached(LAMBDA x : x.kind = "full" /\ SpecOut(x).count = Card(x.K) + 1 /\ NULL \in SpecOut(x).walk)
-    /\ Reached(LAMBDA x : x.kind = "full" /\ Card(x.K) >= 2 /\ SpecOut(x).stop # {}
-                          /\ \E k \in SetOf(x.K) : Parents(ParOf(x), k) \cap SetOf(x.missing) \cap Ghosts # {})
-    /\ Reached(LAMBDA x : x.kind = "full" /\ Cardinality(SpecOut(x).start) >= 2 /\ Cardinality(SpecOut(x).stop) >= 2)
-    /\ Reached(LAMBDA x : x.kind = "limited" /\ Cardinality(SpecOut(x).keys) >= 2 /\ SpecOut(x).keys # SetOf(x.K)
-                          /\ SpecOut(x).start # PossibleHeads(ParOf(x), SetOf(x.K), SetOf(x.tips), x.depth))
-    /\ Reached(LAMBDA x : x.kind = "limited" /\ NULL \in SpecOut(x).walk /\ SpecOut(x).stop # {})
+    /\ Reached(LAMBDA x : x.kind = "full" /\ 0 \in SetOf(x.missing)
+                          /\ LET s == SpecOut(x) IN s.count = Card(x.K) + 1 /\ NULL \in s.walk)
+    /\ Reached(LAMBDA x : x.kind = "full" /\ Card(x.K) >= 2
+                          /\ (\E k \in SetOf(x.K) : Parents(ParOf(x), k) \cap SetOf(x.missing) \cap Ghosts # {})
+                          /\ SpecOut(x).stop # {})
+    /\ Reached(LAMBDA x : x.kind = "full" /\ Card(x.K) >= 2
+                          /\ LET s == SpecOut(x) IN Cardinality(s.start) >= 2 /\ Cardinality(s.stop) >= 2)
+    /\ Reached(LAMBDA x : x.kind = "limited" /\ Card(x.K) >= 3
+                          /\ LET s == SpecOut(x) IN
+                             /\ Cardinality(s.keys) >= 2 /\ s.keys # SetOf(x.K)
+                             /\ s.start # PossibleHeads(ParOf(x), SetOf(x.K), SetOf(x.tips), x.depth))
+    /\ Reached(LAMBDA x : x.kind = "limited" /\ LET s == SpecOut(x) IN NULL \in s.walk /\ s.stop # {})
 Export == JsonSerialize(IOEnv.VF_OUT, SetToSeq({[c |-> x] : x \in Cases}))
 ASSUME IF "VF_OUT" \in DOMAIN IOEnv THEN Export ELSE TRUE
 ASSUME IF "VF_WITNESSES" \in DOMAIN IOEnv THEN WitnessesReached ELSE TRUE
